@@ -329,6 +329,7 @@ type Exec struct {
 	Parent  *Exec
 	InDefer bool
 	InComm  *ast.CommClause // set while a hoisted select comm statement is interpreted
+	RetCall []string        // set while the single call of `return f(...)` is interpreted: the result terms it feeds
 	Collect bool            // collect exits instead of calling I.Exit
 	Exits   []ExitState
 	Steps   int
